@@ -334,3 +334,152 @@ Example npd_parameters_separator_instance :
   load_npd ex_npd_params_spaces = load_npd ex_npd_params_commas /\
   (exists o, load_npd ex_npd_params_spaces = NOk o).
 Proof. exact ex_npd_params. Qed.
+
+(* ==== session 5: RI vs MA vs DB, keyword order and noise blocks of version 2, NPD column forms and '#:z0' ========= *)
+Require Import LV.Base.CField LV.Base.QcI.
+Require Import LV.Files.TsFormat LV.Files.TsFormatProofs LV.Files.TsV2Order LV.Files.TsV2OrderProofs LV.Files.TsV2OrderExamples.
+Require Import LV.Files.NpdCols LV.Files.NpdColsProofs LV.Files.NpdColsExamples.
+
+(* format_equiv.  convert_value_pair is modelled as coded (Files/TsFormat.v) over any field K with the operations of
+   <complex.h> as parameters; [fmt_laws] collects the laws used: cexp (u + v) = cexp u * cexp v, pow10 t = cexp (LOG10 * t),
+   RAD_PER_DEG = pi / 180, 20 <> 0, and the embedding of the file's numbers respects 1, products and quotients.
+   One pair: if x + i y = m cexp (i a pi / 180), d = 20 log10 m and pow10 (log10 m) = m, the RI pair (x, y), the MA pair
+   (m, a) and the DB pair (d, a) convert to the same value. *)
+Theorem format_equiv_pair : forall (K : CField) (ofQ : Qc -> K) (ci : K) (cexp : K -> K) (ln10 rad_per_deg twenty pi c180 : K)
+    (pow10 log10 : K -> K),
+  fmt_laws K ofQ ci cexp ln10 rad_per_deg twenty pi c180 pow10 ->
+  forall x y m a d : K, same_number K ci cexp twenty pi c180 pow10 log10 x y m a d ->
+    convert_value_pair K ci cexp ln10 rad_per_deg twenty FRI x y = convert_value_pair K ci cexp ln10 rad_per_deg twenty FMA m a /\
+    convert_value_pair K ci cexp ln10 rad_per_deg twenty FDB d a = convert_value_pair K ci cexp ln10 rad_per_deg twenty FMA m a /\
+    convert_value_pair K ci cexp ln10 rad_per_deg twenty FRI x y = convert_value_pair K ci cexp ln10 rad_per_deg twenty FDB d a.
+Proof. exact convert_equiv_thm. Qed.
+Print Assumptions format_equiv_pair.
+
+(* Whole files, version 2: three well-formed files (any port count up to 46340, any number of frequencies, Full / Upper /
+   Lower, either two-port order, with or without [Reference]) that differ only in the format word of the option line and
+   spell, pair by pair, the same complex numbers load, and the loaded objects have the same type, ports, frequencies,
+   reference impedances and the same complex values. *)
+Theorem format_equiv_v2 : forall (K : CField) (ofQ : Qc -> K) (ci : K) (cexp : K -> K) (ln10 rad_per_deg twenty pi c180 : K)
+    (pow10 log10 : K -> K),
+  fmt_laws K ofQ ci cexp ln10 rad_per_deg twenty pi c180 pow10 ->
+  forall fr fm fd : v2file, v2_wf fr -> v2_wf fm -> v2_wf fd ->
+    let hr := opts_hdr true (f_opts fr) in let hm := opts_hdr true (f_opts fm) in let hd := opts_hdr true (f_opts fd) in
+    h_fmt hr = FRI -> h_fmt hm = FMA -> h_fmt hd = FDB -> hdr_same_but_fmt hr hm -> hdr_same_but_fmt hd hm ->
+    f_n fr = f_n fm -> f_n fd = f_n fm -> f_order fr = f_order fm -> f_order fd = f_order fm ->
+    f_mf fr = f_mf fm -> f_mf fd = f_mf fm ->
+    option_map (map n_val) (f_ref fr) = option_map (map n_val) (f_ref fm) ->
+    option_map (map n_val) (f_ref fd) = option_map (map n_val) (f_ref fm) ->
+    same_records K ofQ ci cexp twenty pi c180 pow10 log10 (f_records fr) (f_records fm) (f_records fd) ->
+    exists o_ri o_ma o_db, parse (v2_stream fr) = Ok o_ri /\ parse (v2_stream fm) = Ok o_ma /\ parse (v2_stream fd) = Ok o_db /\
+      same_meta o_ri o_ma /\ same_meta o_db o_ma /\
+      obj_values K ofQ ci cexp ln10 rad_per_deg twenty o_ri = obj_values K ofQ ci cexp ln10 rad_per_deg twenty o_ma /\
+      obj_values K ofQ ci cexp ln10 rad_per_deg twenty o_db = obj_values K ofQ ci cexp ln10 rad_per_deg twenty o_ma.
+Proof. exact format_equiv_v2_thm. Qed.
+Print Assumptions format_equiv_v2.
+
+(* Version 1 (1 to 4 ports, the un-normalisation of Z / Y / H / G data by a finite R included). *)
+Theorem format_equiv_v1 : forall (K : CField) (ofQ : Qc -> K) (ci : K) (cexp : K -> K) (ln10 rad_per_deg twenty pi c180 : K)
+    (pow10 log10 : K -> K),
+  fmt_laws K ofQ ci cexp ln10 rad_per_deg twenty pi c180 pow10 ->
+  forall gr gm gd : v1file, v1_wf gr -> v1_wf gm -> v1_wf gd ->
+    let hr := opts_hdr false (g_opts gr) in let hm := opts_hdr false (g_opts gm) in let hd := opts_hdr false (g_opts gd) in
+    h_fmt hr = FRI -> h_fmt hm = FMA -> h_fmt hd = FDB -> hdr_same_but_fmt hr hm -> hdr_same_but_fmt hd hm ->
+    g_ports gr = g_ports gm -> g_ports gd = g_ports gm -> x_fin (h_z0 hm) ->
+    same_records K ofQ ci cexp twenty pi c180 pow10 log10 (g_records gr) (g_records gm) (g_records gd) ->
+    exists o_ri o_ma o_db, parse (v1_stream gr) = Ok o_ri /\ parse (v1_stream gm) = Ok o_ma /\ parse (v1_stream gd) = Ok o_db /\
+      same_meta o_ri o_ma /\ same_meta o_db o_ma /\
+      obj_values K ofQ ci cexp ln10 rad_per_deg twenty o_ri = obj_values K ofQ ci cexp ln10 rad_per_deg twenty o_ma /\
+      obj_values K ofQ ci cexp ln10 rad_per_deg twenty o_db = obj_values K ofQ ci cexp ln10 rad_per_deg twenty o_ma.
+Proof. exact format_equiv_v1_thm. Qed.
+Print Assumptions format_equiv_v1.
+
+(* the scaled cells of the parser model denote what the C code computes: convert_value_pair, then "*= R" / "/= R" *)
+Theorem unnormalised_cell_values : forall (K : CField) (ofQ : Qc -> K) (ci : K) (cexp : K -> K) (ln10 rad_per_deg twenty pi c180 : K)
+    (pow10 : K -> K),
+  fmt_laws K ofQ ci cexp ln10 rad_per_deg twenty pi c180 pow10 ->
+  forall (h : hdr) (z : Qc) (m : list cell), h_z0 h = XQ z -> qc_is0 z = false -> Forall cell_fin m ->
+    matrix_values K ofQ ci cexp ln10 rad_per_deg twenty (h_fmt h) (unnormalise h m) =
+    unnorm_values K (h_type h) (ofQ z) 0 (matrix_values K ofQ ci cexp ln10 rad_per_deg twenty (h_fmt h) m).
+Proof. exact unnormalise_values_thm. Qed.
+Print Assumptions unnormalised_cell_values.
+
+(* the laws are consistent (Gaussian rationals, cexp = pow10 = 1).  The intended instance - complex numbers with the real
+   exponential - is not constructed in Coq; the tie checks the extracted convert_value_pair, instantiated with binary64
+   complex arithmetic, against the compiled function. *)
+Theorem fmt_laws_satisfiable :
+  fmt_laws QIF qi_ofQ qiI (fun _ => qi1) qi0 (qi_ofQ (qcz 1)) (qi_ofQ (qcz 20)) (qi_ofQ (qcz 180)) (qi_ofQ (qcz 180)) (fun _ => qi1).
+Proof. exact trivial_instance. Qed.
+
+(* Version-2 keyword section.  kw_order_run: the keyword loop of the parser model on ANY list of well-spelled keyword
+   lines ([Number of Ports], [Two-Port Order], [Number of Frequencies], [Number of Noise Frequencies], [Matrix Format],
+   [Reference], [Begin Information] with or without [End Information]) ends in the header kws_run computes, or in the
+   error EBADMSG exactly when kws_run refuses a line. *)
+Theorem kw_order_run : forall ks h s, body_like s h -> kws_ok h ks ->
+  match kws_run h ks with
+  | Some h' => body_like (fold_left pstep (render_kws ks) s) h'
+  | None => fold_left pstep (render_kws ks) s = SErr EBADMSG
+  end.
+Proof. exact kw_lines_run. Qed.
+Print Assumptions kw_order_run.
+
+(* the orders that are refused: [Reference] before [Number of Ports], a second [Number of Ports], a second [Reference] *)
+Theorem kw_order_rejected :
+  (forall pre l post h, h_ports h = (-1)%Z -> (forall n, ~ In (KLPorts n) pre) -> kws_run h (pre ++ KLRef l :: post) = None) /\
+  (forall pre n mid m post h, kws_run h (pre ++ KLPorts n :: mid ++ KLPorts m :: post) = None) /\
+  (forall pre l mid l' post h, kws_run h (pre ++ KLRef l :: mid ++ KLRef l' :: post) = None).
+Proof. exact (conj ref_before_ports_rejected_lemma (conj ports_twice_rejected_lemma ref_twice_rejected_lemma)). Qed.
+Print Assumptions kw_order_rejected.
+
+(* permutation invariance over the accepted orders (each kind of line at most once; information blocks anywhere) *)
+Theorem kw_order_invariance : forall ks1 ks2 h h1 h2, Permutation ks1 ks2 -> NoDup (map kw_kind (filter not_info ks1)) ->
+  kws_run h ks1 = Some h1 -> kws_run h ks2 = Some h2 -> h1 = h2.
+Proof. exact kw_order_invariance_lemma. Qed.
+Print Assumptions kw_order_invariance.
+
+(* v2g_load: every well-formed version-2 file with its keyword lines in an accepted order, information blocks and an
+   optional [Noise Data] block loads to the object it describes; hence a permutation of the keyword lines changes
+   nothing, and neither does dropping the noise block. *)
+Theorem v2g_load : forall h f, v2g_wf h f -> parse (v2g_stream h f) = Ok (v2g_result h f).
+Proof. exact v2g_load_lemma. Qed.
+Print Assumptions v2g_load.
+
+Theorem kw_order_load : forall h1 h2 f1 f2, v2g_wf h1 f1 -> v2g_wf h2 f2 ->
+  q_opts f1 = q_opts f2 -> q_records f1 = q_records f2 ->
+  Permutation (q_kws f1) (q_kws f2) -> NoDup (map kw_kind (filter not_info (q_kws f1))) ->
+  h1 = h2 /\ parse (v2g_stream h1 f1) = parse (v2g_stream h2 f2) /\ parse (v2g_stream h1 f1) = Ok (v2g_result h1 f1).
+Proof. exact kw_order_load_lemma. Qed.
+Print Assumptions kw_order_load.
+
+Theorem noise_block_skipped : forall h f, v2g_wf h f ->
+  v2g_wf (set_nnoise h (-1)) (drop_noise f) /\
+  parse (v2g_stream (set_nnoise h (-1)) (drop_noise f)) = parse (v2g_stream h f) /\
+  parse (v2g_stream h f) = Ok (v2g_result h f).
+Proof. exact noise_block_skipped_lemma. Qed.
+Print Assumptions noise_block_skipped.
+
+Example kw_order_instance :
+  v2g_wf (hdr_of exg_a) exg_a /\ v2g_wf (hdr_of exg_b) exg_b /\
+  (Permutation exg_kws_a exg_kws_b /\ NoDup (map kw_kind (filter not_info exg_kws_a))) /\
+  (kws_run (opts_hdr true exg_opts) exg_kws_bad = None /\ Permutation (filter not_info exg_kws_a) exg_kws_bad) /\
+  tokens exg_a_bytes = v2g_stream (hdr_of exg_a) exg_a.
+Proof. exact (conj exg_a_wf (conj exg_b_wf (conj exg_perm (conj exg_rejected exg_a_stream)))). Qed.
+
+(* NPD column forms: dB / MA / RI columns as coded (pow10 and cexp abstract, 20 <> 0 the only law) *)
+Theorem npd_column_forms : forall (K : CField) (ci : K) (cexp pow10 log10 : K -> K) (twenty pi c180 : K), twenty <> c0 ->
+  forall x y m a d : K, npd_same_number K ci cexp pow10 log10 twenty pi c180 x y m a d ->
+    npd_convert K ci cexp pow10 twenty pi c180 RI x y = npd_convert K ci cexp pow10 twenty pi c180 MA m a /\
+    npd_convert K ci cexp pow10 twenty pi c180 NpdScan.DB d a = npd_convert K ci cexp pow10 twenty pi c180 MA m a.
+Proof. exact npd_convert_equiv_lemma. Qed.
+Print Assumptions npd_column_forms.
+
+(* npd_header_order_z0_partial: on the byte-level header model (NpdLoad.hline_step) the '#:z0' line may stand before or
+   after any line that does not fix the dimensions (version, frequencies, parameters, fprecision, dprecision): both
+   orders are refused or both give the same header; before the port count it is refused, and a '#:ports' line after it
+   is refused.  Partial: the statement for an arbitrary permutation of a whole header (with the side condition that
+   '#:z0' follows '#:ports' or both '#:rows' and '#:columns') is not proved. *)
+Theorem npd_header_order_z0_partial :
+  (forall h k f fz, dims_key k = false -> alike (hdr_run h [(NKZ0, fz); (k, f)]) (hdr_run h [(k, f); (NKZ0, fz)])) /\
+  (forall h fz, n_ports h = (-1)%Z -> (n_rows h = (-1)%Z \/ n_columns h = (-1)%Z) -> hline_step h NKZ0 fz = inl NEBADMSG) /\
+  (forall h fz h' f, hline_step h NKZ0 fz = inr h' -> hline_step h' NKPorts f = inl NEBADMSG).
+Proof. exact (conj z0_commutes_lemma (conj z0_before_ports_rejected_lemma ports_after_z0_rejected_lemma)). Qed.
+Print Assumptions npd_header_order_z0_partial.
